@@ -309,11 +309,14 @@ def layout_violations(o):
         if s["bytes"] and s["addr"] is not None and s["addr"] + len(s["bytes"]) > 0x10000:
             out.append(("I7:bytes-beyond-$FFFF", {"stmt": s["i"], "addr": s["addr"], "len": len(s["bytes"])}))
             break
-    # hex column is a prefix of the bytes
-    for s in o.stmts:
-        if s["hexcol"] is not None:
-            hx = bytes(s["bytes"]).hex().upper()[:10]
-            if s["hexcol"] != hx.rstrip():
-                out.append(("I6:listing-hex-column", {"stmt": s["i"], "col": s["hexcol"], "bytes": hx}))
-                break
     return out
+
+
+def hex_column_mismatches(o):
+    """informational only (the properties do not constrain the listing's hex column): statements whose hex column is not a
+    prefix of the bytes they emit"""
+    n = 0
+    for s in o.stmts:
+        if s["hexcol"] is not None and s["hexcol"] != bytes(s["bytes"]).hex().upper()[:10].rstrip():
+            n += 1
+    return n
